@@ -80,7 +80,7 @@ def parseFmt : String → Option Fmt
   | "bin" => some .bin | "json" => some .json | _ => none
 def parseKK : String → Option KeyKind
   | "vk" => some .vk | "u64" => some .u64 | "i64" => some .i64 | "str" => some .str
-  | "bytes" => some .bytes | _ => none
+  | "bytes" => some .bytes | "int" => some .int | "uint" => some .uint | "sk" => some .sk | _ => none
 def parseVK : String → Option ValKind
   | "u64" => some .u64 | "bytes" => some .bytes | "str" => some .str
   | "ptr" => some .ptr | "iface" => some .iface | _ => none
